@@ -12,7 +12,8 @@ import numpy as np
 from pv.ref import c20_ellipse as ref
 
 FIT_CLASSES = ['sersic', 'gauss', 'geo_step', 'linear', 'fix_center', 'fix_pa', 'fix_eps', 'fix_two',
-               'area_mean', 'area_median', 'nearest', 'pa_edge', 'eps_edge', 'offcentre', 'truth_start']
+               'area_mean', 'area_median', 'nearest', 'pa_edge', 'eps_edge', 'offcentre', 'truth_start',
+               'fix_noniter', 'controls']
 
 
 def _size(rng, tier):
@@ -85,7 +86,8 @@ def draw(rng, cls, tier):
     step = 0.1
     if cls in ('geo_step', 'eps_edge', 'pa_edge', 'offcentre') or rng.random() < 0.25:
         step = float(rng.uniform(0.1, 0.3))
-    if cls == 'linear' or (cls in ('fix_center', 'fix_two', 'offcentre', 'nearest') and rng.random() < 0.3):
+    if cls == 'linear' or (cls in ('fix_center', 'fix_two', 'offcentre', 'nearest') and rng.random() < 0.3) \
+            or (cls in ('fix_noniter', 'controls') and rng.random() < 0.4):
         linear = True
         step = float(rng.uniform(1.0, 3.0))
     if cls in ('area_mean', 'area_median'):
@@ -119,8 +121,36 @@ def draw(rng, cls, tier):
         minsma = float(rng.uniform(0.6, 3.0))
     else:
         minsma = float(rng.uniform(1.0, 0.8 * sma0))
+    regime = None
+    if cls == 'fix_noniter':
+        # make the outward pass END in non-iterative mode (stop_code 4) while parameters are held fixed
+        regime = ['maxrit_below_sma0', 'maxrit_mid', 'maxsma_beyond_frame'][int(rng.integers(0, 3))]
+        if regime == 'maxrit_below_sma0':
+            kw['maxrit'] = float(rng.uniform(0.5, 0.95) * sma0)
+        elif regime == 'maxrit_mid':
+            kw['maxrit'] = float(rng.uniform(1.15 * sma0, max(1.3 * sma0, 0.9 * maxsma)))
+        else:
+            maxsma = float(rng.uniform(0.65, 1.0) * m)     # the centre is at most 0.62 m from the nearest edge
     kw['minsma'] = minsma
     kw['maxsma'] = maxsma
+    if cls == 'controls':
+        # keywords that change the control flow of the fit loops; only structural monitors are judged
+        if rng.random() < 0.5:
+            kw['nclip'] = int(rng.integers(1, 4))
+            kw['sclip'] = float(rng.uniform(2.0, 3.5))
+        if rng.random() < 0.5:
+            kw['fflag'] = float(rng.uniform(0.5, 0.9))
+        if rng.random() < 0.5:
+            kw['maxgerr'] = float(rng.uniform(0.1, 1.0))
+        if rng.random() < 0.5:
+            kw['conver'] = float(rng.uniform(0.01, 0.3))
+        if rng.random() < 0.5:
+            kw['minit'] = int(rng.integers(3, 13))
+            kw['maxit'] = int(rng.integers(max(kw['minit'], 10), 61))
+        if rng.random() < 0.4:
+            kw['maxrit'] = float(rng.uniform(0.6 * sma0, maxsma))
+        if rng.random() < 0.3:
+            kw['maxsma'] = float(rng.uniform(0.65, 1.0) * m)
     if rng.random() < 0.7:
         kw['sma0'] = sma0          # else taken from the geometry object
 
@@ -134,6 +164,11 @@ def draw(rng, cls, tier):
     elif cls == 'fix_two':
         a, b = [('fix_center', 'fix_pa'), ('fix_center', 'fix_eps'), ('fix_pa', 'fix_eps')][int(rng.integers(0, 3))]
         fix[a] = fix[b] = True
+    elif cls == 'fix_noniter' or (cls == 'controls' and rng.random() < 0.4):
+        combos = [('fix_center',), ('fix_pa',), ('fix_eps',), ('fix_center', 'fix_pa'), ('fix_center', 'fix_eps'),
+                  ('fix_pa', 'fix_eps')]
+        for a in combos[int(rng.integers(0, 6))]:
+            fix[a] = True
     # a fixed parameter is pinned at the truth (so the free ones can still be
     # recovered) or, half of the time, at its perturbed start value
     fixed_at_truth = bool(rng.random() < 0.5)
@@ -147,6 +182,7 @@ def draw(rng, cls, tier):
     # where the flags are given: fit_image keywords, or the EllipseGeometry constructor
     flags_via = 'call' if (not any(fix.values()) or rng.random() < 0.7) else 'geometry'
 
+    spec.update(regime=regime, no_recovery=(cls == 'controls'))
     spec.update(init=init, fit_kw=kw, fix=fix, fixed_at_truth=fixed_at_truth, flags_via=flags_via,
                 linear=linear, linear_via=linear_via)
     return spec
